@@ -327,10 +327,62 @@ func cqrGoDeinterleave(raw []byte, version int, ec decoder.ErrorCorrectionLevel)
 	})
 }
 
-func cqrGoDecode(m *gozxing.BitMatrix, h cqrHint) (string, *common.DecoderResult) {
+// ---- long-lived decoders: every matrix-level decode of the C01/C05/C06 suites is ALSO run on a decoder object that has
+// decoded other symbols before (other versions, other levels of the same version, damaged ones); its answer must equal
+// the fresh decoder's.  Mismatches are collected here and turned into oracle verdicts by cqrDrainReuse.
+type cqrLongDec struct {
+	qr   *decoder.Decoder
+	hist []string
+}
+
+type cqrReuseMismatch struct{ what, hist, fresh, reused string }
+
+var (
+	cqrLongPool   = make(chan *cqrLongDec, 64)
+	cqrReuseMu    sync.Mutex
+	cqrReuseDiffs []cqrReuseMismatch
+	cqrReuseCalls int
+)
+
+func cqrMatrixDesc(m *gozxing.BitMatrix) string {
+	var sb strings.Builder
+	fmt.Fprintf(&sb, "%dx%d:", m.GetWidth(), m.GetHeight())
+	for y := 0; y < m.GetHeight(); y++ {
+		var acc byte
+		for x := 0; x < m.GetWidth(); x++ {
+			acc <<= 1
+			if m.Get(x, y) {
+				acc |= 1
+			}
+			if x%8 == 7 || x == m.GetWidth()-1 {
+				fmt.Fprintf(&sb, "%02x", acc)
+				acc = 0
+			}
+		}
+		sb.WriteByte('/')
+	}
+	return sb.String()
+}
+
+func cqrDrainReuse(c *Ctx, suite string) {
+	cqrReuseMu.Lock()
+	defer cqrReuseMu.Unlock()
+	c.NoteN("decoder-reuse:decodes-repeated-on-a-long-lived-Decoder", cqrReuseCalls)
+	cqrReuseCalls = 0
+	for _, d := range cqrReuseDiffs {
+		c.Oracle(suite, false, "qr-decoder-reuse", "one long-lived qrcode/decoder.Decoder; earlier symbols: "+d.hist+" ; then: "+d.what,
+			"long-lived Decoder answered "+c05Short(d.reused)+" ; a fresh Decoder answers "+c05Short(d.fresh))
+	}
+	if len(cqrReuseDiffs) == 0 {
+		c.Oracle(suite, true, "", "long-lived decoders agreed with fresh ones", "")
+	}
+	cqrReuseDiffs = nil
+}
+
+func cqrDecodeOut(d *decoder.Decoder, m *gozxing.BitMatrix, h cqrHint) (string, *common.DecoderResult) {
 	var res *common.DecoderResult
 	out := Safe(func() string {
-		r, e := decoder.NewDecoder().Decode(cqrClone(m), h.hint)
+		r, e := d.Decode(cqrClone(m), h.hint)
 		if e != nil {
 			return "ERR:" + errKind(e)
 		}
@@ -344,6 +396,33 @@ func cqrGoDecode(m *gozxing.BitMatrix, h cqrHint) (string, *common.DecoderResult
 		}
 		return fmt.Sprintf("ok ec=%s mir=%d data=%s %s", r.GetECLevel(), mir, hexs(r.GetRawBytes()), cqrParsedOut(r))
 	})
+	return out, res
+}
+
+func cqrGoDecode(m *gozxing.BitMatrix, h cqrHint) (string, *common.DecoderResult) {
+	out, res := cqrDecodeOut(decoder.NewDecoder(), m, h)
+	var ld *cqrLongDec
+	select {
+	case ld = <-cqrLongPool:
+	default:
+		ld = &cqrLongDec{qr: decoder.NewDecoder()}
+	}
+	out2, _ := cqrDecodeOut(ld.qr, m, h)
+	desc := fmt.Sprintf("%dx%d -> %s", m.GetWidth(), m.GetHeight(), c05Short(out))
+	cqrReuseMu.Lock()
+	cqrReuseCalls++
+	if out2 != out && len(cqrReuseDiffs) < 5 {
+		cqrReuseDiffs = append(cqrReuseDiffs, cqrReuseMismatch{cqrMatrixDesc(m), strings.Join(ld.hist, " ; "), out, out2})
+	}
+	cqrReuseMu.Unlock()
+	ld.hist = append(ld.hist, desc)
+	if len(ld.hist) > 3 {
+		ld.hist = ld.hist[len(ld.hist)-3:]
+	}
+	select {
+	case cqrLongPool <- ld:
+	default:
+	}
 	return out, res
 }
 
